@@ -222,9 +222,9 @@ def _polyval(c, x):
     return r
 
 
-def _state(ctx):
+def _state(ctx, P_range=(1e-3, 1e3)):
     T = ctx.real('T', 50, 3000)
-    P = ctx.real('P', 1e-3, 1e3)
+    P = ctx.real('P', P_range[0], P_range[1])
     n = ctx.real('n', 1e-3, 1e3)
     return T, P, n
 
@@ -294,10 +294,10 @@ def h_vdw_TP(ctx):
     ctx.true('|P_vdW - P_ideal| <= a/Vm^2 + b R T/(Vm(Vm-b))', (d <= bound * (1 + 1e-9)) & (-d <= bound * (1 + 1e-9)))
 
 
-def h_vdw_roots(ctx, gas_phase):
+def h_vdw_roots(ctx, gas_phase, P_range=(1e-3, 1e3)):
     rec = _install_roots_stub(ctx)
     eos, a, b = _vdw(ctx)
-    T, P, n = _state(ctx)
+    T, P, n = _state(ctx, P_range)
     V = eos.get_V(T=T, P=P, n=n, gas_phase=gas_phase)
     ctx.eq('get_P(T, get_V(T,P,n), n) = P', eos.get_P(T=T, V=V, n=n), P)
     ctx.eq('get_T(get_V(T,P,n), P, n) = T', eos.get_T(V=V, P=P, n=n), T)
@@ -310,7 +310,17 @@ def h_vdw_roots(ctx, gas_phase):
         # root selection: gas = largest real root, liquid = smallest
         rs = None
         from symx import npshim
-        rs = npshim.stubs['roots'](rec['calls'][0])
+        coefs = rec['calls'][0]
+        from pmutt import constants as cc
+        P_SI = P * cc.convert_unit(initial='bar', final='Pa')
+        ref = [P_SI, -(P_SI * b + cc.R('J/mol/K') * T), a, -a * b]
+        # the comparison below reads the roots as molar volumes: it applies when the polynomial handed to numpy.roots is the cubic in Vm
+        # (decided by the solver; for any other, equivalent, polynomial - e.g. in the compressibility factor - it is skipped, the
+        # substitution obligations above still apply)
+        in_Vm = all(bool(ci == ri) for ci, ri in zip(coefs, ref))
+        if not in_Vm:
+            ctx.note('polynomial handed to numpy.roots is not the cubic in Vm: root-selection obligation not applied')
+        rs = npshim.stubs['roots'](coefs) if in_Vm else []
         for r in rs:
             if r.is_real:
                 if gas_phase:
@@ -393,6 +403,10 @@ def groups(tier):
         dict(name='vdw/T-P-inversions+limit', harness=h_vdw_TP),
         dict(name='vdw/roots/gas', harness=h_vdw_roots, params=dict(gas_phase=True), branch_timeout_ms=700, remote_feasibility=True),
         dict(name='vdw/roots/liquid', harness=h_vdw_roots, params=dict(gas_phase=False), branch_timeout_ms=700, remote_feasibility=True),
+        dict(name='vdw/roots/liquid/dilute', harness=h_vdw_roots, params=dict(gas_phase=False, P_range=(1e-9, 1e-3)), branch_timeout_ms=700,
+             remote_feasibility=True),
+        dict(name='vdw/roots/gas/dilute', harness=h_vdw_roots, params=dict(gas_phase=True, P_range=(1e-9, 1e-3)), branch_timeout_ms=700,
+             remote_feasibility=True),
         dict(name='vdw/cubic', harness=h_vdw_cubic, no_validate=True, branch_timeout_ms=700),
         dict(name='vdw/critical', harness=h_vdw_critical),
         dict(name='vdw/critical-ab', harness=h_vdw_critical_ab),
